@@ -151,6 +151,7 @@ func TestC01(t *testing.T) {
 		j := jobs[k]
 		runCircuit(r, j.ops, j.idx)
 	})
+	r.Require("commitment-keys.pairs-audited", int64(9*len(cvs)))
 	r.Require("rejected.replay", 10)
 	r.Require("rejected.single-edit", 100)
 	r.Require("rejected.list-edit", 10)
@@ -175,6 +176,12 @@ func runCircuit(r *vcore.Run, ops *cvapi.Ops, idx int) {
 	if spec.NPub == 0 {
 		spec.NPub = 1
 	}
+	if idx == 1 {
+		// one fixed rich circuit per curve, so that every family meets several commitments
+		// (public, secret, overlapping, over an earlier commitment) on every curve in both tiers
+		spec = &circuits.Spec{NPub: 2, NSec: 3, Muls: 3, Commits: []circuits.CommitSpec{
+			{Pub: []int{0}, Sec: []int{0, 1}}, {Sec: []int{1, 2}, Prev: []int{0}}, {Sec: []int{2}}}}
+	}
 	field := ops.ID.ScalarField()
 	label := fmt.Sprintf("%s/%d", ops.Name, idx)
 	ccs, err := frontend.Compile(field, r1cs.NewBuilder, spec.New())
@@ -194,6 +201,19 @@ func runCircuit(r *vcore.Run, ops *cvapi.Ops, idx int) {
 	}
 	c := &caseCtx{r: r, ops: ops, spec: spec, label: label, ccs: ccs, vk: vk, field: field}
 	r.Count("circuits", 1)
+
+	// ---- family 0: the keys Setup produced bind every commitment to its own basis: a proof of
+	// knowledge assembled from another commitment's proving-key material must not verify
+	if audit, ok := ops.Ext["G16CrossCommitmentKeys"].(func(pk, vk any) (int, []string)); ok {
+		n, bad := audit(pk, vk)
+		if n > 0 {
+			r.Eval(label+"|cross-commitment-keys", true)
+			r.Count("commitment-keys.pairs-audited", n)
+		}
+		for _, b := range bad {
+			r.Violation("commitment-keys/"+strings.SplitN(b, ":", 2)[0], b, map[string]any{"curve": ops.Name, "circuit": spec.String()})
+		}
+	}
 	r.Count(fmt.Sprintf("circuits.commitments=%d", ops.G16NbCommitments(vk)), 1)
 
 	// genuine proofs
